@@ -67,6 +67,9 @@ def members(rng):
         "memo": [b"]q\x00h\x00.", b"]p7\ng7\n.", b"]r\x00\x01\x00\x00j\x00\x01\x00\x00.", b"\x80\x04]\x94h\x00.", b"(K\x01K\x022q\x050."],
         "globals": [b"cos\nsystem\n.", b"cpkg.sub\nf\n.", b"(K\x01imod\nCls\n.", b"\x80\x04\x8c\x02os\x8c\x06system\x93.",
                     b"c__builtin__\nset\n(]K\x01atR."],
+        # one pickle holding two different SPELLINGS of equal arguments under the same opcode (each opcode keeps its own bytes)
+        "spellings": [pickle.dumps([1, True, 0, False], 0), pickle.dumps({"a": True, "b": 1}, 0), b"(S'spam'\nS\"spam\"\nl.",
+                      b"(\x8a\x01\x05\x8a\x02\x05\x00l.", b"(I01\nI1\nI001\nl.", b"(Vabc\nV\\u0061bc\nl."],
         "frames": [_f(4, b"K\x01\x85."), _f(2, b"K\x01\x85."), _f(0, b"K\x01\x85."),
                    _f(3, b"K\x01\x85") + b"\x95" + struct.pack("<Q", 1) + b"."],
         "frames_over": [_f(7, b"K\x01\x85."), _f(6, b"]\x94."), _f(12, b"\x8c\x03abc\x94.")],
